@@ -142,3 +142,43 @@ package main
 //@   loop 1
 //@     invariant d != 0 && d == ref(dec) && 0 <= n && n == dpos(d) && n <= dlen(d) && !interrupted
 //@     invariant report != nil && rep != nil && out != nil
+
+// ---------------------------------------------------------------------------------- C19 C02
+// attack: an unlimited rate (0 or infinity, both Freq == 0) is refused unless -max-workers was given.
+// Everything the command sets up afterwards (resolver, TLS, prometheus, the Attacker's options) is
+// over-approximated (pragma unknowncalls havoc): the guard must hold whatever that code does.
+//@ func attack
+//@   property C19
+//@   pragma unknowncalls havoc
+//@   pragma obligations contract
+//@   pragma frame off
+//@   returns (err)
+//@   requires [non-nil] opts != nil
+//@   ghost attacked bool = false
+//@   at call Attack: ghost attacked = true
+//@   ensures [unlimited-rate-demands-max-workers] old(opts.maxWorkers) == 18446744073709551615 && old(opts.rate.Freq) == 0 ==> err != nil && !attacked
+//@   loop 1
+//@     invariant -1 <= rangeindex && rangeindex < 2 && opts == old(opts) && !attacked && files != nil
+
+// processAttack: every result received from the attack is observed (if metrics are on) and written
+// exactly once, in the order received, until the channel is closed, a write fails or a second signal.
+//@ func processAttack
+//@   property C02
+//@   pragma frame off
+//@   pragma concurrent yes
+//@   shared done, closed
+//@   rely (forall o ref :: old(done(o)) ==> done(o)) && (forall c ref :: old(closed(c)) ==> closed(c)) && (closed(atk.stopch) <==> done(&atk.stopOnce))
+//@   returns (err)
+//@   requires [non-nil] atk != nil && atk.stopch != nil && enc != nil && res != nil && sig != nil
+//@   requires [stop-flags-consistent] closed(atk.stopch) <==> done(&atk.stopOnce)
+//@   requires [metrics-constructed-if-any] pm != nil ==> wfMetrics(pm)
+//@   ghost got int = 0
+//@   ghost written int = 0
+//@   at recv res: ghost got = got + 1
+//@   before call Observe: assume [the-attack-sends-only-non-nil-results] arg1 != nil
+//@   before call Encode: assume [the-attack-sends-only-non-nil-results] arg1 != nil
+//@   at call Encode: assert [writes-the-result-just-received] arg1 == r && ok && written + 1 == got ; ghost written = written + 1
+//@   ensures [every-received-result-written-once] err == nil ==> written == got || written + 1 == got
+//@   loop 1
+//@     invariant written == got && atk == old(atk) && atk != nil && atk.stopch == old(atk.stopch) && enc == old(enc) && enc != nil && pm == old(pm)
+//@     invariant (closed(atk.stopch) <==> done(&atk.stopOnce)) && (pm != nil ==> wfMetrics(pm))
